@@ -21,7 +21,7 @@ RULE = ('cases = curves (lower/upper chain) and point sets in several row orders
 ASSUMPTIONS = ['orientation is evaluated exactly (integer / dyadic coordinates)',
                '"lowest-leftmost" start accepted as either leftmost-then-lowest or lowest-then-leftmost']
 BOUNDS = {'quick': {'re-embedded': 'chains A12 n=5 and lattice sets (size<=5) at scales 2^-24, 2^-40, (2^20,2^30)', 'chains': 'A n<=5 complete, A12 n=6', 'graham_scan': 'all subsets of the 4x4 lattice of size 3..5, 3 row orders'},
-          'thorough': {'chains': 'A n<=6 complete, A1 n=7,8', 'graham_scan': 'all subsets of 4x4 lattice size 3..7 and of the 5x5 lattice size 3..4, 3 row orders'}}
+          'thorough': {'chains': 'A n<=6 complete, A1 n=7,8,9, A12 n=7', 'graham_scan': 'all subsets of 4x4 lattice size 3..8 and of the 5x5 lattice size 3..5, 3 row orders'}}
 TECHNIQUE = 'exhaustive enumeration of small curves / lattice subsets on the real hull routines against brute-force exact-orientation hulls'
 LEVEL_TEXT = ('Model checking by complete enumeration: all curves of the alphabet up to the bound and all subsets of a small lattice (general position and every '
               'degenerate configuration) in several input orders; chains must equal the brute-force chain, graham_scan must contain all extreme vertices, only '
@@ -32,7 +32,7 @@ LEVEL_NOTE = 'Bounded by set size and lattice; exact coordinates only.'
 def units(tier, seed):
     u = []
     plan = [('A', 2, 1), ('A', 3, 1), ('A', 4, 4), ('A', 5, 32), ('A12', 6, 16)] if tier == 'quick' else \
-        [('A', 2, 1), ('A', 3, 1), ('A', 4, 4), ('A', 5, 16), ('A', 6, 256), ('A1', 7, 8), ('A1', 8, 32)]
+        [('A', 2, 1), ('A', 3, 1), ('A', 4, 4), ('A', 5, 16), ('A', 6, 256), ('A1', 7, 8), ('A1', 8, 32), ('A1', 9, 128), ('A12', 7, 512)]
     b = curves.bonus(seed)
     plan.append((b.name, 4, 4))
     for sx, sy in ((2.0 ** -24, 2.0 ** -24), (1.0, 2.0 ** -40), (2.0 ** 20, 2.0 ** 30)):
@@ -41,9 +41,9 @@ def units(tier, seed):
         for k in range(K):
             u.append(('chain', prof, n, k, K))
     shift = [0, 5, -7, 1024, 3, -1][seed % 6]
-    sizes = (3, 4, 5) if tier == 'quick' else (3, 4, 5, 6, 7)
+    sizes = (3, 4, 5) if tier == 'quick' else (3, 4, 5, 6, 7, 8)
     for sz in sizes:
-        K = {3: 1, 4: 2, 5: 8, 6: 16, 7: 32}[sz]
+        K = {3: 1, 4: 2, 5: 8, 6: 16, 7: 32, 8: 64}[sz]
         for k in range(K):
             u.append(('set', 4, sz, k, K, shift, 1.0))
     for sc in (2.0 ** -24, 2.0 ** -40):
@@ -52,7 +52,7 @@ def units(tier, seed):
             for k in range(K):
                 u.append(('set', 4, sz, k, K, 0, sc))
     if tier == 'thorough':
-        for sz, K in ((3, 2), (4, 16)):
+        for sz, K in ((3, 2), (4, 16), (5, 128)):
             for k in range(K):
                 u.append(('set', 5, sz, k, K, shift, 1.0))
     return u
